@@ -206,6 +206,7 @@ type snap struct {
 	hold  []holder             // all raw share records
 	vals  [nUsers][nDen]*big.Int
 	tv    [nDen]*big.Int // keeper GetVaultTotalValue (-1 = error)
+	hfree *big.Int       // hard: usdx cash not set aside as reserves (what a third party can still borrow)
 	sinv  string         // savings keeper invariants
 	einv  string         // earn keeper invariants
 }
@@ -305,6 +306,10 @@ func (w *world) snap() *snap {
 		} else {
 			s.tv[d] = v.Amount.BigInt()
 		}
+	}
+	s.hfree = new(big.Int).Set(s.bal[accHard][dUsdx])
+	if res, found := w.hk.GetTotalReserves(w.ctx); found {
+		s.hfree.Sub(s.hfree, res.AmountOf("usdx").BigInt())
 	}
 	if msg, broken := savingskeeper.AllInvariants(w.sk)(w.ctx); broken {
 		s.sinv = msg
